@@ -38,7 +38,10 @@
        lost the deleted objects, other slots of survivors that held none of them
        are unchanged.  Every deleted object is x or a (transitive) content of x
        in the state where delete() is called, and every direct content of x is
-       deleted.
+       deleted; from a WF state with acyclic containment and fuel above the
+       depth, every TRANSITIVE content is (Proofs/C07Trans.v): with the model's
+       fuel, deleted = {x} + the transitive contents of x, and each of them ends
+       without container, holding no reference, held by no refslot.
 
    PROVED at history level for metamodels WITHOUT containment: for every
    history of fitting, applicable operations followed by x.delete(r): (a), (b),
@@ -56,8 +59,20 @@
      theorems C07_no_dangling_after_delete_in_every_history,
      C07_exact_frame_after_delete_in_every_history and
      C07_deleted_objects_uncontained_in_every_history at the end of this file);
-   * that every transitive content of x is deleted (the converse inclusion,
-     beyond direct contents) needs acyclicity of containment and enough fuel;
+   * (closed since, Proofs/C07Trans.v: that every transitive content of x is deleted --
+     the converse inclusion beyond direct contents -- holds from every WF state
+     with acyclic containment for fuel above the content's depth, hence, with
+     the model's fuel (number of objects + 1), in every state reached by a
+     history whose calls close no containment cycle (fits_history of
+     Proofs/Acyclic.v, the property's own quantifier): theorems
+     C07_every_transitive_content_is_deleted_state,
+     C07_deleted_is_exactly_the_subtree_state and
+     C07_recursive_delete_clears_the_whole_subtree_in_every_history at the end
+     of this file.  delete() reads x's direct contents in the calling state and
+     each child's contents in the state left by the deletion of the previous
+     siblings' subtrees; single ownership + acyclicity make those subtrees
+     disjoint, so nothing below a later sibling has been touched.  Without
+     acyclicity the statement is not meaningful: the walk is cut by the fuel);
    * how many occurrences a NON-unique collection loses is only bounded
      (`cellN`: Ex applied some number of times).
    These are carried by the correspondence and the before/after oracle of
@@ -378,3 +393,69 @@ Theorem C07_deleted_objects_uncontained_in_every_history :
     cont (next m (fold_left (next m) ops (init_state m)) (ODelete x r)) d = None.
 Proof. exact wf_history_deleted_uncontained. Qed.
 Print Assumptions C07_deleted_objects_uncontained_in_every_history.
+
+(* ---------- the recursive delete reaches every transitive content (Proofs/C07Trans.v) ---------- *)
+From PyecoreV Require Import Proofs.C19Proofs Proofs.C19Once Proofs.OwnAll Proofs.WFCorollaries Proofs.Acyclic
+     Proofs.C07Trans.
+
+(* (T1) from a WF state with acyclic containment: every content at depth n < fuel is visited *)
+Theorem C07_every_transitive_content_is_deleted_state :
+  forall m, wf_mm m -> forall fuel s x y n,
+    WF m s -> acyclic_cont s -> descends_in m s n x y -> n < fuel ->
+    In y (deleted m fuel s x true).
+Proof. exact descendants_deleted. Qed.
+Print Assumptions C07_every_transitive_content_is_deleted_state.
+
+(* with the model's fuel the visited objects are exactly x and its transitive contents *)
+Theorem C07_deleted_is_exactly_the_subtree_state :
+  forall m, wf_mm m -> forall fuel s x d,
+    WF m s -> acyclic_cont s -> in_universe m s -> length (ocls m) < fuel ->
+    (In d (deleted m fuel s x true) <-> d = x \/ descends m s x d).
+Proof. exact deleted_iff_subtree. Qed.
+Print Assumptions C07_deleted_is_exactly_the_subtree_state.
+
+Theorem C07_every_deleted_object_holds_no_reference :
+  forall m fuel s x r d f b,
+    In d (deleted m fuel s x r) -> In f (ref_feats m d) ->
+    ~ In (VObj b) (vals (delete_obj fuel m s x r) (d, f)).
+Proof. exact deleted_hold_nothing. Qed.
+Print Assumptions C07_every_deleted_object_holds_no_reference.
+
+(* (T2) every history that closes no containment cycle, then x.delete(recursive=True) *)
+Theorem C07_deleted_is_exactly_the_subtree_in_every_history :
+  forall m, wf_mm m -> ref_defaults_none m ->
+  forall ops, fits_history m (init_state m) ops ->
+  forall x d,
+    In d (deleted m (S (length (ocls m))) (reach m ops) x true) <-> d = x \/ descends m (reach m ops) x d.
+Proof. exact history_deleted_iff_subtree. Qed.
+Print Assumptions C07_deleted_is_exactly_the_subtree_in_every_history.
+
+Theorem C07_recursive_delete_clears_the_whole_subtree_in_every_history :
+  forall m, wf_mm m -> wf_typed m -> ref_defaults_none m ->
+  forall ops, fits_history m (init_state m) ops -> Forall (op_appl m) ops ->
+  forall x y,
+    y = x \/ descends m (reach m ops) x y ->
+    cont (next m (reach m ops) (ODelete x true)) y = None /\
+    (forall f b, In f (ref_feats m y) -> ~ In (VObj b) (vals (next m (reach m ops) (ODelete x true)) (y, f))) /\
+    (forall a f, refslot m f -> ~ In (VObj y) (vals (next m (reach m ops) (ODelete x true)) (a, f))).
+Proof. exact history_recursive_delete_whole_subtree. Qed.
+Print Assumptions C07_recursive_delete_clears_the_whole_subtree_in_every_history.
+
+(* (T3) satisfiable: 0 > {1 > 2 > 3, 4}, 5 watches 0, 2, 3 and is watched by 3; 0.delete() *)
+Example C07_transitive_delete_witness :
+  let m := ex_mm_chain in
+  let s := reach m ex_chain_ops in
+  let s' := next m s (ODelete 0 true) in
+  (wf_mm m /\ wf_typed m /\ ref_defaults_none m /\
+   fits_history m (init_state m) ex_chain_ops /\ Forall (op_appl m) ex_chain_ops) /\
+  (map (cont s) [0; 1; 2; 3; 4; 5], vals s (5, 2), vals s (3, 2)) =
+    ([None; Some (0, 0); Some (1, 0); Some (2, 0); Some (0, 0); None], [VObj 0; VObj 2; VObj 3], [VObj 5]) /\
+  eallcontents 7 m s 0 = [1; 4; 2; 3] /\
+  deleted m (S (length (ocls m))) s 0 true = [3; 2; 1; 4; 0] /\
+  descends m s 0 2 /\ descends m s 0 3 /\
+  (cont s' 3 = None /\ (forall f b, In f (ref_feats m 3) -> ~ In (VObj b) (vals s' (3, f))) /\
+   (forall a f, refslot m f -> ~ In (VObj 3) (vals s' (a, f)))) /\
+  (map (cont s') [0; 1; 2; 3; 4; 5], map (fun o => vals s' (o, 0)) [0; 1; 2; 3; 4; 5], vals s' (5, 2), vals s' (3, 2)) =
+    ([None; None; None; None; None; None], [[]; []; []; []; []; []], [], []).
+Proof. exact transitive_delete_witness. Qed.
+Print Assumptions C07_transitive_delete_witness.
